@@ -307,12 +307,17 @@ impl Retransform for TransformedHamiltonian<WM, LowRankMassMatrix<WM>> {
             return;
         }
         let Some(lr) = rt.get("lowrank") else { return };
-        let vals: Vec<f64> = lr["vals"].as_array().unwrap().iter().map(|x| x.as_f64().unwrap_or(f64::NAN)).collect();
+        // null = NaN, "inf" = +infinity
+        let num = |x: &J| match x {
+            J::String(s) if s == "inf" => f64::INFINITY,
+            o => o.as_f64().unwrap_or(f64::NAN),
+        };
+        let vals: Vec<f64> = lr["vals"].as_array().unwrap().iter().map(num).collect();
         let vecs: Vec<Vec<f64>> = lr["vecs"]
             .as_array()
             .unwrap()
             .iter()
-            .map(|c| c.as_array().unwrap().iter().map(|x| x.as_f64().unwrap_or(f64::NAN)).collect())
+            .map(|c| c.as_array().unwrap().iter().map(num).collect())
             .collect();
         let mu = jvf(lr, "mu");
         self.transformation_mut().verif_update(math, stds, mean, &vals, &vecs, &mu);
